@@ -885,7 +885,7 @@ theorem step_doActionCore (w : World) (mid : Nat) (batch : Option Txn) (a : Acti
       simpa using hmiss
     cases a with
     | create o tr =>
-      have hk : ∀ (w' : World), w'.orders = w.orders ++ [{ o with id := w.orders.length, created := w.clock, statusAt := w.clock, status := none, complete := false }] →
+      have hk : ∀ (w' : World), w'.orders = w.orders ++ [{ o with id := w.orders.length, created := w.clock, statusAt := w.clock, status := none, complete := false, log := [] }] →
           w'.markets = w.markets → w'.queue = w.queue → Inv w' ∧ BOk w' batch := by
         intro w' h1 h2 h3
         have g := good_appendOrder w w' _ rfl h1 h2 (sub_of_eq h3)
